@@ -193,7 +193,7 @@ APPEND = {
     ("C03_unsync_load_out", "unsync_load_out", "the invariant survives unsync_load"),
     ("C03_with_mut_out", "with_mut_out", "and with_mut"),
     ("C03_bstep_out", "bstep_out", "every step kind of the generalised machine (model steps, stores/RMWs with any released clock below the thread's clock, unsync accesses, admissible growth): invariant kept, stamps kept, mo only extended, clocks only grow"),
- ]), ("LV.AtomicFacts LV.AtomicCoherence LV.AtomicCoRR LV.AtomicClosure LV.AtomicBridge LV.NotifyFacts LV.ClockFacts LV.SyncMono LV.AtomicRun", "OVER EXECUTIONS OF THE MODEL L (AtomicRun.v): along SyncMono.steps -- arbitrary interleavings of the micro-operations of all threads, scheduling and spawn included -- the invariant of one atomic cell is preserved. Remaining hypotheses, stated in the theorems: the invariant on the first state (the declared atomics start with the all-zero clock, which the invariant's `key >= 1` clause excludes: to be weakened), and AccSide (every access micro-operation on the cell is a machine step: proved by the six _is_step lemmas from `replayed index is a candidate`, `t_rel <= t_caus`, `ring not full`)", [
+ ]), ("LV.AtomicFacts LV.AtomicCoherence LV.AtomicCoRR LV.AtomicClosure LV.AtomicBridge LV.NotifyFacts LV.ClockFacts LV.SyncMono LV.AtomicRun", "OVER EXECUTIONS OF THE MODEL L (AtomicRun.v): along SyncMono.steps -- arbitrary interleavings of the micro-operations of all threads, scheduling and spawn included -- the invariant of one atomic cell is preserved. The headline (run_goodAt) starts at init_exec; its remaining hypotheses (RunOK) are stated in the theorem: at every access to the cell the replayed index is a candidate (an exploration-level fact), the ring has not wrapped, t_rel <= t_caus and the thread id is below MAX_THREADS (the last two are not yet proved as execution invariants)", [
     ("C03_exec_micro_akeep", "exec_micro_akeep", "THE FRAME LEMMA: every micro-operation that is not an access to atomic a (scheduling, park, yield, every operation on other objects and other atomics, fences, spawn, termination: one tactic over all 77 micro-operations) keeps a's stores, count and mutating flag"),
     ("C03_growto_goodS", "growto_goodS", "the invariant survives ANY change of the clock list that grows pointwise and stays bounded by the owners' own components"),
     ("C03_exec_growto", "exec_growto", "and every micro-operation is such a change (ClockFacts.clock_wf + SyncMono's monotonicity), on the clock list padded with empty clocks for unspawned threads, so spawn is an ordinary growth step"),
@@ -203,6 +203,12 @@ APPEND = {
     ("C03_steps_goodAt", "steps_goodAt", "along any number of steps"),
     ("C03_steps_atomicity", "steps_atomicity", "RMW atomicity in every state along the steps"),
     ("C03_steps_never_none", "steps_never_none", "loom's assert_ne cannot fire along the steps"),
+    ("C03_init_goodAt", "init_goodAt", "the invariant holds for every declared atomic in the initial state of every iteration (init_exec p pa)"),
+    ("C03_acc_step_is_bstep", "acc_step_is_bstep", "all eight access micro-operations (load, fetch_update load, store, RMW, unsync_load, with_mut, the two block_on polls) are steps of the generalised machine under SideOK"),
+    ("C03_run_goodAt", "run_goodAt", "HEADLINE: for every program p, every recorded path pa, every declared atomic a and every state e reachable from init_exec p pa by steps of the execution model, the invariant of a holds in e -- under RunOK: at every access to a, (i) the replayed index is a candidate, (ii) the ring has not wrapped, (iii) t_rel <= t_caus, (iv) thread id < MAX_THREADS"),
+    ("C03_run_atomicity", "run_atomicity", "hence RMW atomicity in every reachable state of every execution"),
+    ("C03_run_never_none", "run_never_none", "and loom's assert_ne never fires in any reachable state"),
+    ("C03_run_atomic_exists", "run_atomic_exists", "the atomic is never removed"),
  ])],
  "C02": [("LV.AtomicFacts LV.AtomicCoherence", "Nothing allowed is pruned without a reason: the candidate set is never empty and contains every mo-maximal store (AtomicCoherence.v)", [
     ("C02_mo_maximal_is_candidate", "mo_maximal_is_candidate", "a live store with no mo-later live store is always a candidate"),
